@@ -133,7 +133,62 @@ let to_treq (e : sexp) : M.treq =
               to_zlist s, to_bool ok)
   | _ -> failwith "bad text request"
 
-(* <id> <f32|f64|q|z|text> <std|core|-> <request> *)
+(* strings of the model are lists of ascii (extracted inductive): build them from OCaml strings *)
+let ascii_of_char (c : char) : M.ascii =
+  let n = Char.code c in
+  let bit k = (n lsr k) land 1 = 1 in
+  M.Ascii (bit 0, bit 1, bit 2, bit 3, bit 4, bit 5, bit 6, bit 7)
+let mstring (s : string) : M.string =
+  let r = ref M.EmptyString in
+  for i = String.length s - 1 downto 0 do r := M.String (ascii_of_char s.[i], !r) done; !r
+let to_mstring = function A s -> mstring s | L _ -> failwith "expected name"
+let to_marker = function
+  | A "Add" -> M.MAdd | A "AddAssign" -> M.MAddAssign | A "Sub" -> M.MSub | A "SubAssign" -> M.MSubAssign
+  | A "Mul" -> M.MMul | A "MulAssign" -> M.MMulAssign | A "Div" -> M.MDiv | A "DivAssign" -> M.MDivAssign
+  | A "Neg" -> M.MNeg | A "Rem" -> M.MRem | A "RemAssign" -> M.MRemAssign | A "Saturating" -> M.MSaturating
+  | _ -> failwith "bad marker"
+let to_qty = function
+  | L [d; k; u] -> { M.t_dim = to_zlist d; t_kind = to_mstring k; t_base = to_z u }
+  | _ -> failwith "bad quantity type"
+let to_aop = function
+  | A "add" -> M.AAdd | A "sub" -> M.ASub | A "rem" -> M.ARem | A "addas" -> M.AAddAssign | A "subas" -> M.ASubAssign | A "remas" -> M.ARemAssign
+  | _ -> failwith "bad additive op"
+let to_prog (e : sexp) : M.prog =
+  match e with
+  | L [A "additive"; o; a; b] -> M.PAdditive (to_aop o, to_qty a, to_qty b)
+  | L [A "compare"; a; b] -> M.PCompare (to_qty a, to_qty b)
+  | L [A "mul"; a; b] -> M.PMul (to_qty a, to_qty b)
+  | L [A "div"; a; b] -> M.PDiv (to_qty a, to_qty b)
+  | L [A "scalar_right"; a] -> M.PScalarRight (to_qty a)
+  | L [A "scalar_left_mul"; a] -> M.PScalarLeftMul (to_qty a)
+  | L [A "scalar_left_div"; a] -> M.PScalarLeftDiv (to_qty a)
+  | L [A "recip"; a] -> M.PRecip (to_qty a)
+  | L [A "powi"; a; k] -> M.PPowi (to_qty a, to_z k)
+  | L [A "sqrt"; a] -> M.PSqrt (to_qty a)
+  | L [A "cbrt"; a] -> M.PCbrt (to_qty a)
+  | L [A "muladd"; x; a; b] -> M.PMulAdd (to_qty x, to_qty a, to_qty b)
+  | L [A "neg"; a] -> M.PNeg (to_qty a)
+  | L [A "unchanged"; a] -> M.PUnchanged (to_qty a)
+  | L [A "hypot"; a; b] -> M.PHypot (to_qty a, to_qty b)
+  | L [A "atan2"; a; b] -> M.PAtan2 (to_qty a, to_qty b)
+  | L [A "sametype"; a; b] -> M.PSameTypeOp (to_qty a, to_qty b)
+  | L [A "from"; a; b] -> M.PFrom (to_qty a, to_qty b)
+  | L [A "from_number"; b] -> M.PFromNumber (to_qty b)
+  | L [A "into_number"; a] -> M.PIntoNumber (to_qty a)
+  | L [A "unit"; qm; um] -> M.PUnit (to_mstring qm, to_mstring um)
+  | L [A "let"; a; b] -> M.PLet (to_qty a, to_qty b)
+  | _ -> failwith "bad program"
+let rec nat_of_int (n : int) : M.nat = if n <= 0 then M.O else M.S (nat_of_int (n - 1))
+let to_tyreq (e : sexp) : M.tyreq =
+  match e with
+  | L [L kinds; L froms; A n; temp; ac; std; p] ->
+    { M.tr_kinds = List.map (function L [k; L ms; inh] -> { M.k_name = to_mstring k; k_markers = List.map to_marker ms; k_inherits = to_bool inh } | _ -> failwith "bad kind") kinds;
+      tr_from = List.map (function L [a; b] -> (to_mstring a, to_mstring b) | _ -> failwith "bad impl_from") froms;
+      tr_n = nat_of_int (int_of_string n); tr_temp = to_zlist temp;
+      tr_cfg = { M.c_autoconvert = to_bool ac; c_std = to_bool std }; tr_prog = to_prog p }
+  | _ -> failwith "bad typing request"
+
+(* <id> <f32|f64|q|z|text|ty> <std|core|-> <request> *)
 let run (st : string) (lib : sexp) (r : sexp) : string =
   match st with
   | "f64" -> String.concat " " (List.map string_of_z (M.run64 (to_lib lib) (to_req to_z r)))
@@ -141,6 +196,7 @@ let run (st : string) (lib : sexp) (r : sexp) : string =
   | "q" -> String.concat " " (List.map string_of_q (M.q_run (to_req to_q r)))
   | "z" -> String.concat " " (List.map string_of_z (M.z_run (to_req to_z r)))
   | "text" -> String.concat " " (List.map string_of_z (M.text_run (to_treq r)))
+  | "ty" -> String.concat " " (List.map string_of_z (M.typing_run (to_tyreq r)))
   | _ -> failwith ("unknown storage class: " ^ st)
 
 let () =
